@@ -289,6 +289,55 @@ def _run_ops(ops):
 
     st = {"ka": None, "base": None, "n": 0, "k": 0, "sp": None, "tables": []}
 
+    class Guard:
+        """Mutable arguments handed to the real code: they must come back bit-identical, and the finished
+        object must not alias them - so they are scrambled afterwards and later ops must not notice."""
+
+        def __init__(self):
+            self.items = []
+
+        def add(self, a):
+            if isinstance(a, np.ndarray):
+                self.items.append((a, a.copy(), a.dtype, a.shape))
+            return a
+
+        def changed(self):
+            return any(a.dtype != d or a.shape != sh or not np.array_equal(a, c) for a, c, d, sh in self.items)
+
+        def scramble(self):
+            for a, _c, _d, _sh in self.items:
+                if a.dtype == bool:
+                    a[...] = ~a
+                elif a.size:
+                    a[...] = a[::-1].copy()
+
+    def spacing_array(sp):
+        return np.array(sp, dtype=np.int64)
+
+    def scramble_spacing(a):
+        """another valid-looking model with the same largest offset where possible (a stale alias must show)."""
+        if len(a) >= 3:
+            order = np.argsort(a, kind="stable")
+            i0, i1 = order[0], order[1]
+            lo = a[i0]
+            a[i0] = a[i1]
+            a[i1] = lo
+            if np.array_equal(np.sort(a), a):      # was unsorted before: nothing else to do
+                pass
+            mid = order[1]
+            if a[order[2]] - a[mid] >= 2:
+                a[mid] += 1
+            elif a[mid] - 1 > min(a[i0], a[i1]) - 1 and (a[mid] - 1) not in a:
+                a[mid] -= 1
+        elif len(a) == 2:
+            lo, hi = (0, 1) if a[0] <= a[1] else (1, 0)
+            if a[hi] - a[lo] >= 2:
+                a[lo] += 1
+            elif a[lo] >= 1:
+                a[lo] -= 1
+            else:
+                a[lo], a[hi] = a[hi], a[lo]
+
     def i64(xs):
         return np.array(xs, dtype=np.int64)
 
@@ -340,8 +389,15 @@ def _run_ops(ops):
             arg = sp
             if sp is not None and sp and sp == sorted(set(sp)) and sp[0] == 0 and sum(sp) % 2 == 0:
                 arg = "".join("1" if i in sp else "0" for i in range(sp[-1] + 1))   # string form of the same model
+            elif sp is not None:
+                arg = spacing_array(sp)                                           # int64 ndarray, as given (maybe unsorted)
             st["ka"] = align.KmerAlphabet(st["base"], k, arg)
-            return f"ok {len(st['ka'])}"
+            line = f"ok {len(st['ka'])}"
+            if isinstance(arg, np.ndarray):
+                if arg.tolist() != list(sp):
+                    line += " |argument-modified"
+                scramble_spacing(arg)
+            return line
         ka = st["ka"]
         if ka is None:
             return "no-alph"
@@ -357,27 +413,40 @@ def _run_ops(ops):
             nb = None if w[1] == "d" else int(w[1])
             cls = align.KmerTable if nb is None else align.BucketKmerTable
             kw = {} if nb is None else {"n_buckets": nb}
+            g = Guard()
+            sp_arr = None
             if c == "seqs":
                 seqs = [mkseq(x) for x in _parse_lists(w[3])]
-                rid = None if w[2] == "-" else i64(_parse_nats(w[2]))
+                for sq in seqs:
+                    g.add(sq.code)
+                rid = None if w[2] == "-" else g.add(i64(_parse_nats(w[2])))
                 ms = _parse_masks(w[4], len(seqs))
-                ms = None if ms is None else [None if m is None else np.array(m, dtype=bool) for m in ms]
-                t = cls.from_sequences(st["k"], seqs, rid, ms, alphabet=st["base"], spacing=st["sp"], **kw)
+                ms = None if ms is None else [None if m is None else g.add(np.array(m, dtype=bool)) for m in ms]
+                sp_arr = None if st["sp"] is None else spacing_array(st["sp"])
+                t = cls.from_sequences(st["k"], seqs, rid, ms, alphabet=st["base"], spacing=sp_arr, **kw)
             elif c == "kms":
-                kms = [i64(x) for x in _parse_lists(w[3])]
-                rid = None if w[2] == "-" else i64(_parse_nats(w[2]))
+                kms = [g.add(i64(x)) for x in _parse_lists(w[3])]
+                rid = None if w[2] == "-" else g.add(i64(_parse_nats(w[2])))
                 ms = _parse_masks(w[4], len(kms))
-                ms = None if ms is None else [None if m is None else np.array(m, dtype=bool) for m in ms]
+                ms = None if ms is None else [None if m is None else g.add(np.array(m, dtype=bool)) for m in ms]
                 t = cls.from_kmers(ka, kms, rid, ms, **kw)
             else:
-                poss = [i64(x) for x in _parse_lists(w[3])]
-                kms = [i64(x) for x in _parse_lists(w[4])]
-                rid = None if w[2] == "-" else i64(_parse_nats(w[2]))
+                poss = [g.add(i64(x)) for x in _parse_lists(w[3])]
+                kms = [g.add(i64(x)) for x in _parse_lists(w[4])]
+                rid = None if w[2] == "-" else g.add(i64(_parse_nats(w[2])))
                 t = cls.from_kmer_selection(ka, poss, kms, rid, **kw)
-            return add(t, nb is not None)
+            modified = g.changed() or (sp_arr is not None and sp_arr.tolist() != list(st["sp"]))
+            g.scramble()
+            if sp_arr is not None:
+                scramble_spacing(sp_arr)
+            return add(t, nb is not None) + (" |argument-modified" if modified else "")
         if c == "pos":
-            d = {k: np.array(ps, dtype=np.int64).reshape(-1, 2) for k, ps in _parse_dict(w[1])}
-            return add(align.KmerTable.from_positions(ka, d), False)
+            g = Guard()
+            d = {k: g.add(np.array(ps, dtype=np.int64).reshape(-1, 2)) for k, ps in _parse_dict(w[1])}
+            t = align.KmerTable.from_positions(ka, d)
+            modified = g.changed()
+            g.scramble()
+            return add(t, False) + (" |argument-modified" if modified else "")
         if c == "merge":
             ts = [tab(i) for i in _parse_nats(w[1])]
             if any(t is None for t in ts):
@@ -512,6 +581,11 @@ def oracle(case):
         if got == "CRASH" or got.startswith("UNCAUGHT"):
             v.append((f"C10/{c}/crash", f"op `{op}` crashed the interpreter ({got})"))
             break
+        if got.endswith(" |argument-modified"):
+            v.append((f"C10/{c}/argument-modified",
+                      f"op `{op}`: an array passed as argument (spacing / k-mers / mask / positions / ref ids / sequence "
+                      f"code) was modified by the call"))
+            got = got[:-len(" |argument-modified")]
         try:
             if c == "alph":
                 n, k = int(w[1]), int(w[2])
@@ -1238,6 +1312,12 @@ def corpus():
         {"kind": "simmask", "ops": ["alph 2 2 -", "seqs d - 0,1,0,1 -", "matchsim 0 0,1,0 100 1,0,0,1 -5",
                                     "seqs 3 - 0,1,0,1 0010", "matchsim 1 0,1,0 010 1,0,0,1 1",
                                     "seqs d 9 0,1,0 100", "matchtabsim 0 2 1,0,0,1 -5"]},
+        # spacing passed as int64 ndarray (sorted / unsorted): not modified, not aliased (scrambled by the adapter afterwards)
+        {"kind": "table", "ops": ["alph 4 3 0,2,3", "kmers 0,1,2,3,0,1,2", "seqs d - 0,1,2,3,0,1,2,3 -", "dump 0",
+                                  "match 0 1,2,3,0,1,2 -", "seqs 5 - 0,1,2,3,0,1,2,3 -", "match 1 1,2,3,0,1,2 -"]},
+        {"kind": "table", "ops": ["alph 4 3 3,0,1", "kmers 0,1,2,3,0,1,2", "seqs d - 0,1,2,3,0,1,2,3 -", "dump 0",
+                                  "match 0 1,2,3,0,1,2 -"]},
+        {"kind": "table", "ops": ["alph 3 2 0,2", "kmers 0,1,2,2,1", "seqs 2 - 0,1,2,2,1,0 -", "match 0 2,2,1,0 -"]},
         # long k-mers: the leading term of the rolling update exceeds 32 bit
         {"kind": "longk", "ops": ["alph 4 17 -", "kmers 3,3,3,3,3,3,3,3,3,3,3,3,3,3,3,3,3,2,1,3",
                                   "seqs 7 - 3,3,3,3,3,3,3,3,3,3,3,3,3,3,3,3,3,2,1,3;1,3,3,3,3,3,3,3,3,3,3,3,3,3,3,3,3,2,1 -",
